@@ -72,17 +72,35 @@ def gen_req_case(rng, timed=False, allow_opt_change=False, allow_cancel_send=Fal
     now = 0
     recv_after_send = {}
     last_send_aio = {}
+    live = 0          # pipes believed usable
     for _ in range(rng.randrange(4, 50)):
         r = rng.random()
         if r < 0.10 and g.npipes < 3:
-            L.append("conn s0 %d" % (49 if rng.random() < 0.93 else 48)); g.npipes += 1
+            ok = rng.random() < 0.93
+            L.append("conn s0 %d" % (49 if ok else 48)); g.npipes += 1; live += 1 if ok else 0
+        elif r < 0.16 and live:
+            # a whole exchange: request, transport takes it, (receive posted before or after the reply), reply with the id just used
+            t = g.tgt()
+            for p in range(g.npipes):
+                L.append("sent p%d" % p)
+            a = g.aio(); L.append("send %s %s - %s" % (t, a, g.body("aa"))); last_send_aio[t] = a; nreq += 1; recv_after_send[t] = False
+            early = rng.random() < 0.5
+            if early:
+                L.append("recv %s %s" % (t, g.aio())); recv_after_send[t] = True
+            if rng.random() < 0.7:
+                for p in range(g.npipes):
+                    L.append("sent p%d" % p)
+            for p in range(g.npipes):
+                L.append("inject p%d [R%d]%s" % (p, nreq - 1, g.body("bb")))       # the first one matches, the others are duplicates
+            if not early:
+                L.append("recvnb %s" % t if rng.random() < 0.5 else "recv %s %s" % (t, g.aio()))
         elif r < 0.26:
             t = g.tgt()
             if rng.random() < 0.7:
                 a = g.aio(); L.append("send %s %s - %s" % (t, a, g.body("aa"))); last_send_aio[t] = a
             else:
                 L.append("sendnb %s - %s" % (t, g.body("aa")))
-            nreq += 1; recv_after_send[t] = False
+            nreq += 1 if live else 0; recv_after_send[t] = False
         elif r < 0.40:
             t = g.tgt()
             if rng.random() < 0.6:
@@ -106,9 +124,9 @@ def gen_req_case(rng, timed=False, allow_opt_change=False, allow_cancel_send=Fal
                 idw = rng.choice(["", "aa", "aabbcc"])                              # shorter than an id: disconnect
             else:
                 idw = words(rng, 1) + "[R%d]" % max(0, nreq - 1)                   # id hidden behind a backtrace word
-            L.append("inject p%d %s" % (p, (idw + (g.body("bb") if len(idw) >= 8 else "")) or "-"))
+            L.append("inject p%d %s" % (p, (idw + (g.body("bb") if (len(idw) >= 8 or idw.startswith("[")) else "")) or "-"))
         elif r < 0.87 and g.npipes:
-            L.append("drop p%d" % rng.randrange(g.npipes))
+            L.append("drop p%d" % rng.randrange(g.npipes)); live = max(0, live - 1)
         elif r < 0.92 and g.naio:
             a = "a%d" % rng.randrange(g.naio)
             # cancelling a queued send while a receive is posted on the same context asserts (known finding): probed separately
@@ -279,3 +297,439 @@ def gen_xrep_case(rng):
             L.append("ctxclose %s" % c)
         L.append("close s0")
     return L
+
+
+# ------------------------------------------------------------------ oracles (implementation's own observations only)
+def _deliveries(o, recv_target):
+    """[(target, body)] of messages handed to the application in this observation"""
+    out = []
+    for a, rv, extra in o["done"]:
+        if rv == 0 and extra and a in recv_target:
+            out.append((recv_target[a], extra.split("/")[1], extra.split("/")[0]))
+    return out
+
+
+def oracle_req(case, obs, raw, c12=False, stats=None):
+    """C04 (and C12 when c12) for a cooked REQ socket."""
+    cur = {}            # target -> dict(body, rid token or None, wire_since=op index or None, delivered=bool, ntx=int)
+    by_body = {}        # request body -> its record
+    recv_target = {}    # recv aio -> target
+    send_target = {}    # send aio -> (target, body)
+    pend_recv = {}      # target -> aio pending
+    injected = {}       # reply body -> (rid token, op index)
+    resend = {}         # target -> resend time in effect
+    sock_resend = 60000
+    open_ctx = set()
+    tx_seen = {}        # pipe -> current tx string
+    pipe_of = {}        # request body -> pipe it was last written to
+    lost_noretry = set()  # targets whose connection was lost with resending disabled (may report ECONNRESET once)
+    for k, line in enumerate(case):
+        t = line.split()
+        o = obs[k] if k < len(obs) else None
+        if o is None:
+            return (k, "no observation")
+        op = t[0]
+        if op == "ctx" and o["rv"] == 0:
+            open_ctx.add(t[1]); resend[t[1]] = sock_resend
+        elif op == "setopt" and o["rv"] == 0 and t[2] == "req:resend-time":
+            if t[1] == "s0":
+                sock_resend = int(t[4])
+            resend[t[1]] = int(t[4])
+        tgt = t[1] if op in ("send", "sendnb", "recv", "recvnb") else None
+        if op in ("send", "sendnb"):
+            body = t[4] if op == "send" else t[3]
+            # a new request supersedes the old one of this target, whatever happens to it
+            old = cur.get(tgt)
+            if op == "send":
+                send_target[int(t[2][1:])] = (tgt, body)
+            accepted = (op == "send" and o["rv"] == 0) or (op == "sendnb" and o["rv"] == 0)
+            failed_now = any(a == int(t[2][1:]) and rv != 0 for a, rv, e in o["done"]) if op == "send" else (o["rv"] != 0)
+            if old is not None:
+                old["superseded"] = True
+            if pend_recv.get(tgt) is not None and o["rv"] != 7 and not (op == "send" and o["rv"] == 4):
+                a = pend_recv[tgt]
+                if not any(x == a and rv == 20 for x, rv, e in o["done"]):
+                    return (k, "a new request did not cancel the pending receive a%d with NNG_ECANCELED" % a)
+            if accepted and not failed_now:
+                rec = {"body": body, "rid": None, "wire": None, "delivered": 0, "ntx": 0, "tgt": tgt, "superseded": False,
+                       "resend": resend.get(tgt, sock_resend)}
+                cur[tgt] = rec; by_body[body] = rec
+            else:
+                cur[tgt] = None
+        # what is on the wire now
+        for i, p in o["pipes"].items():
+            tx = p.get("tx")
+            if tx != tx_seen.get(i):
+                tx_seen[i] = tx
+                if tx:
+                    hdr, body = tx.split("/")
+                    rec = by_body.get(body)
+                    if rec is None:
+                        return (k, "a message that no request of the application carries was transmitted: %s" % tx)
+                    if rec["rid"] is None:
+                        rec["rid"] = hdr; rec["wire"] = k
+                    elif rec["rid"] != hdr:
+                        return (k, "request %s retransmitted with a different id (%s, first %s)" % (body, hdr, rec["rid"]))
+                    rec["ntx"] += 1
+                    pipe_of[body] = i
+                    if stats is not None and rec["ntx"] > 1:
+                        stats["retransmissions"] = stats.get("retransmissions", 0) + 1
+                    if c12 and rec["resend"] < 0 and rec["ntx"] > 1:
+                        return (k, "request %s was put on the wire %d times although resending is disabled" % (body, rec["ntx"]))
+                    if rec["superseded"]:
+                        return (k, "request %s was (re)transmitted after a newer request replaced it" % body)
+        if op == "inject" and o["rv"] == 0:
+            m = re.match(r"^(\[R\d+\]|[0-9a-f]{8})((?:[0-9a-f]{2})*)$", t[2])
+            if m and m.group(2):
+                injected[m.group(2)] = (m.group(1), k)
+        if op == "recv":
+            if o["rv"] == 0:
+                a = int(t[2][1:]); recv_target[a] = tgt
+                done_now = [(rv, e) for x, rv, e in o["done"] if x == a]
+                if pend_recv.get(tgt) is not None:
+                    if not done_now or done_now[0][0] not in (11, 19):
+                        return (k, "a second concurrent receive on %s did not fail with NNG_ESTATE" % tgt)
+                elif cur.get(tgt) is None and not any(r.get("tgt") == tgt for r in by_body.values()):
+                    if not done_now or done_now[0][0] != 11:
+                        return (k, "receive before any request on %s did not fail with NNG_ESTATE" % tgt)
+                if not done_now:
+                    pend_recv[tgt] = a
+        if op == "recvnb" and cur.get(tgt) is None and not any(r.get("tgt") == tgt for r in by_body.values()) and o["rv"] != 11:
+            return (k, "receive before any request on %s returned %d, not NNG_ESTATE" % (tgt, o["rv"]))
+        got = _deliveries(o, recv_target)
+        if o["got"] and tgt:
+            got.append((tgt, o["got"].split("/")[1], o["got"].split("/")[0]))
+        for a, rv, e in o["done"]:
+            for tg, pa in list(pend_recv.items()):
+                if pa == a:
+                    pend_recv[tg] = None
+        for tg, body, hdr in got:
+            if stats is not None:
+                stats["deliveries"] = stats.get("deliveries", 0) + 1
+            if body not in injected:
+                return (k, "%s received %s, which no peer sent as a reply" % (tg, body))
+            rid, kin = injected[body]
+            rec = cur.get(tg)
+            if rec is None:
+                return (k, "%s received reply %s without an outstanding request" % (tg, body))
+            if rec["rid"] is None or rid != rec["rid"]:
+                return (k, "%s received reply %s carrying id %s, its outstanding request %s has id %s" % (tg, body, rid, rec["body"], rec["rid"]))
+            if kin < rec["wire"]:
+                return (k, "%s received reply %s that arrived before its request %s was on the wire" % (tg, body, rec["body"]))
+            if rec["delivered"]:
+                return (k, "%s received a second reply (%s) to request %s" % (tg, body, rec["body"]))
+            if hdr != "-":
+                return (k, "reply delivered with a non-empty header %s" % hdr)
+            rec["delivered"] += 1
+        if c12:
+            # connection loss with resending disabled: the pending receive fails with ECONNRESET (never hangs, never ECLOSED)
+            for a, rv, e in o["done"]:
+                if a in recv_target and rv == 19:
+                    rec = cur.get(recv_target[a])
+                    if stats is not None:
+                        stats["connreset"] = stats.get("connreset", 0) + 1
+                    if rec is not None and rec["resend"] >= 0 and not rec["superseded"]:
+                        return (k, "receive failed with NNG_ECONNRESET although resending is enabled (%d ms)" % rec["resend"])
+    return None
+
+
+def oracle_rep(case, obs, raw, stats=None):
+    """C04 for a cooked REP socket: reply only to the origin pipe, with the backtrace of the request most recently received by
+    that context, once; send before receive => ESTATE; second concurrent receive => ESTATE"""
+    ttl = 8
+    have = {}           # target -> (pipe, backtrace hex) of the request most recently received and not yet answered
+    recv_target, pend_recv = {}, {}
+    send_aio = {}       # aio -> (target, body)
+    expect_tx = {}      # reply body -> (pipe, backtrace)
+    inj = {}            # request body -> (pipe, backtrace hex)
+    tx_seen = {}
+    gone = set()
+    for k, line in enumerate(case):
+        t = line.split()
+        o = obs[k] if k < len(obs) else None
+        if o is None:
+            return (k, "no observation")
+        op = t[0]
+        if op == "setopt" and t[2] == "ttl-max" and o["rv"] == 0:
+            ttl = int(t[4])
+        if op == "inject" and o["rv"] == 0 and t[2] != "-":
+            h = t[2]
+            nw = 0
+            while len(h) >= 8 and int(h[0:2], 16) < 0x80:
+                h = h[8:]; nw += 1
+            if len(h) >= 8:
+                bt = t[2][:8 * (nw + 1)]; body = t[2][8 * (nw + 1):]
+                if body:
+                    inj[body] = (int(t[1][1:]), bt, nw + 1)
+        tgt = t[1] if op in ("send", "sendnb", "recv", "recvnb") else None
+        got = []
+        if o["got"] and tgt:
+            got.append((tgt, o["got"]))
+        if op == "recv" and o["rv"] == 0:
+            a = int(t[2][1:]); recv_target[a] = tgt
+            done_now = [rv for x, rv, e in o["done"] if x == a]
+            if pend_recv.get(tgt) is not None and (not done_now or done_now[0] != 11):
+                return (k, "a second concurrent receive on %s did not fail with NNG_ESTATE" % tgt)
+            if not done_now:
+                pend_recv[tgt] = a
+        for a, rv, e in o["done"]:
+            for tg, pa in list(pend_recv.items()):
+                if pa == a:
+                    pend_recv[tg] = None
+            if rv == 0 and e and a in recv_target:
+                got.append((recv_target[a], e))
+        for tg, g in got:
+            hdr, body = g.split("/")
+            if body not in inj:
+                return (k, "%s received %s, which no requester sent" % (tg, body))
+            if hdr != "-":
+                return (k, "cooked REP delivered a request with a header (%s)" % hdr)
+            p, bt, nwords = inj[body]
+            if nwords > ttl:
+                return (k, "request %s with %d backtrace words delivered although the TTL is %d" % (body, nwords, ttl))
+            have[tg] = (p, bt)
+            if stats is not None:
+                stats["requests_delivered"] = stats.get("requests_delivered", 0) + 1
+        if op in ("send", "sendnb"):
+            body = t[4] if op == "send" else t[3]
+            h = have.get(tgt)
+            if op == "send" and o["rv"] == 0:
+                a = int(t[2][1:])
+                dn = [rv for x, rv, e in o["done"] if x == a]
+                if h is None:
+                    if not dn or dn[0] != 11:
+                        return (k, "send on %s without a received request did not fail with NNG_ESTATE" % tgt)
+                else:
+                    if dn and dn[0] == 11:
+                        pass        # refused: a previous reply of this context still waits for its pipe (slot kept)
+                    else:
+                        expect_tx[body] = h; have[tgt] = None
+            elif op == "sendnb":
+                if h is None:
+                    if o["rv"] != 11:
+                        return (k, "send on %s without a received request returned %d, not NNG_ESTATE" % (tgt, o["rv"]))
+                elif o["rv"] == 0:
+                    expect_tx[body] = h; have[tgt] = None
+                elif o["rv"] == 8:
+                    pass            # busy pipe: the reply slot is kept
+                elif o["rv"] == 11:
+                    pass
+        for i, p in o["pipes"].items():
+            tx = p.get("tx")
+            if tx != tx_seen.get(i):
+                tx_seen[i] = tx
+                if tx:
+                    hdr, body = tx.split("/")
+                    if body not in expect_tx:
+                        return (k, "reply %s transmitted on p%d but never accepted from the application (or transmitted twice)" % (body, i))
+                    ep, ebt = expect_tx.pop(body)
+                    if ep != i:
+                        return (k, "reply %s sent to p%d, its request came from p%d" % (body, i, ep))
+                    if hdr != ebt:
+                        return (k, "reply %s sent with backtrace %s, its request had %s" % (body, hdr, ebt))
+                    if stats is not None:
+                        stats["replies_routed"] = stats.get("replies_routed", 0) + 1
+    return None
+
+
+def oracle_xrep(case, obs, raw, stats=None):
+    """raw REP: receive pushes the pipe id and moves the backtrace (<= ttl words), send pops the pipe id and routes"""
+    ttl = 8
+    inj = {}
+    sent = {}           # body -> (pipe or None, rest-of-header)
+    tx_seen = {}
+    for k, line in enumerate(case):
+        t = line.split()
+        o = obs[k] if k < len(obs) else None
+        if o is None:
+            return (k, "no observation")
+        op = t[0]
+        if op == "setopt" and t[2] == "ttl-max" and o["rv"] == 0:
+            ttl = int(t[4])
+        if op == "inject" and o["rv"] == 0 and t[2] != "-":
+            h = t[2]; nw = 0
+            while len(h) >= 8 and int(h[0:2], 16) < 0x80:
+                h = h[8:]; nw += 1
+            if len(h) >= 8 and t[2][8 * (nw + 1):]:
+                inj[t[2][8 * (nw + 1):]] = (int(t[1][1:]), t[2][:8 * (nw + 1)], nw + 1)
+        got = []
+        if o["got"]:
+            got.append(o["got"])
+        for a, rv, e in o["done"]:
+            if rv == 0 and e:
+                got.append(e)
+        for g in got:
+            hdr, body = g.split("/")
+            if body not in inj:
+                return (k, "received %s, which no requester sent" % body)
+            p, bt, nwords = inj[body]
+            if hdr != "[P%d]%s" % (p, bt):
+                return (k, "request %s delivered with header %s, expected the pipe id of p%d followed by %s" % (body, hdr, p, bt))
+            if nwords > ttl:
+                return (k, "request %s with %d backtrace words delivered although the TTL is %d" % (body, nwords, ttl))
+            if stats is not None:
+                stats["raw_requests_delivered"] = stats.get("raw_requests_delivered", 0) + 1
+        if op in ("send", "sendnb"):
+            hdr, body = (t[3], t[4]) if op == "send" else (t[2], t[3])
+            m = re.match(r"^\[P(\d+)\](.*)$", hdr)
+            sent[body] = (int(m.group(1)), m.group(2) or "-") if m else (None, None)
+        for i, p in o["pipes"].items():
+            tx = p.get("tx")
+            if tx != tx_seen.get(i):
+                tx_seen[i] = tx
+                if tx:
+                    hdr, body = tx.split("/")
+                    if body not in sent:
+                        return (k, "message %s transmitted but never sent by the application" % body)
+                    ep, eh = sent[body]
+                    if ep != i:
+                        return (k, "reply %s went to p%d, its header named %s" % (body, i, "p%d" % ep if ep is not None else "no pipe"))
+                    if hdr != eh:
+                        return (k, "reply %s transmitted with header %s, expected %s (first word popped)" % (body, hdr, eh))
+                    if stats is not None:
+                        stats["raw_replies_routed"] = stats.get("raw_replies_routed", 0) + 1
+    return None
+
+
+def oracle_xreq(case, obs, raw, stats=None):
+    """raw REQ: header ++ body goes out unchanged on some pipe, once; arriving backtraces are moved to the header up to the id"""
+    sent, inj, tx_all = {}, {}, {}
+    tx_seen = {}
+    delivered = set()
+    for k, line in enumerate(case):
+        t = line.split()
+        o = obs[k] if k < len(obs) else None
+        if o is None:
+            return (k, "no observation")
+        op = t[0]
+        if op in ("send", "sendnb"):
+            hdr, body = (t[3], t[4]) if op == "send" else (t[2], t[3])
+            sent[body] = hdr
+        if op == "inject" and o["rv"] == 0 and t[2] != "-":
+            h = t[2]; nw = 0
+            while len(h) >= 8 and int(h[0:2], 16) < 0x80:
+                h = h[8:]; nw += 1
+            if len(h) >= 8 and t[2][8 * (nw + 1):]:
+                inj[t[2][8 * (nw + 1):]] = (t[2][:8 * (nw + 1)], nw + 1)
+        got = []
+        if o["got"]:
+            got.append(o["got"])
+        for a, rv, e in o["done"]:
+            if rv == 0 and e:
+                got.append(e)
+        for g in got:
+            hdr, body = g.split("/")
+            if body not in inj:
+                return (k, "received %s, which no replier sent" % body)
+            if body in delivered:
+                return (k, "reply %s delivered twice" % body)
+            delivered.add(body)
+            if hdr != inj[body][0]:
+                return (k, "reply %s delivered with header %s, expected %s" % (body, hdr, inj[body][0]))
+            if inj[body][1] > 16:
+                return (k, "reply %s with %d header words delivered (header capacity is 16 words)" % (body, inj[body][1]))
+        for i, p in o["pipes"].items():
+            tx = p.get("tx")
+            if tx != tx_seen.get(i):
+                tx_seen[i] = tx
+                if tx:
+                    hdr, body = tx.split("/")
+                    if body not in sent:
+                        return (k, "message %s transmitted but never sent by the application" % body)
+                    if body in tx_all:
+                        return (k, "message %s transmitted twice (p%d and p%d)" % (body, tx_all[body], i))
+                    tx_all[body] = i
+                    if hdr != sent[body]:
+                        return (k, "message %s transmitted with header %s, the application gave %s" % (body, hdr, sent[body]))
+    return None
+
+
+STATS = {}
+
+
+def oracle(case, obs, raw):
+    proto = case[0].split()[2]
+    if proto == "req0":
+        return oracle_req(case, obs, raw, stats=STATS)
+    if proto == "rep0":
+        return oracle_rep(case, obs, raw, stats=STATS)
+    if proto == "rep0_raw":
+        return oracle_xrep(case, obs, raw, stats=STATS)
+    return oracle_xreq(case, obs, raw, stats=STATS)
+
+
+# the refutation witnesses of Properties_C04 / the reproducers of findings/c04/repro.txt, replayed on the library; on a
+# repaired tree they are ordinary cases (the model follows the source through the C04_*_FIXED flags)
+FIXED_CASES = [
+    ["open s0 req0", "setopt s0 req:resend-time ms -1", "conn s0 49", "send s0 a0 - aa01", "sent p0", "setopt s0 req:resend-time ms 1000", "inject p0 [R0]bb", "recvnb s0"],
+    ["open s0 req0", "conn s0 49", "send s0 a0 - aa01", "sent p0", "setopt s0 req:resend-time ms -1", "inject p0 [R0]bb", "recvnb s0", "close s0"],
+    ["open s0 req0", "setopt s0 req:resend-time ms 5000", "send s0 a0 - aa01", "setopt s0 req:resend-time ms -1", "conn s0 49", "sent p0", "advance 7000", "sent p0"],
+    ["open s0 req0", "send s0 a0 - aa01", "recv s0 a1", "cancel a0", "poll"],
+    ["open s0 req0", "setopt s0 req:resend-time ms -1", "conn s0 49", "send s0 a0 - aa01", "sent p0", "inject p0 [R0]bb", "drop p0", "recvnb s0", "recvnb s0"],
+    ["open s0 req0", "conn s0 49", "send s0 a0 - aa01", "sent p0", "inject p0 [R0]bb", "send s0 a1 - aa02", "recvnb s0"],
+    ["open s0 rep0", "conn s0 48", "inject p0 80000001cc01", "recvnb s0", "inject p0 80000002cc02", "sendnb s0 - dd01", "sent p0 31", "recvnb s0"],
+    ["open s0 rep0", "ctx c0 s0", "ctx c1 s0", "conn s0 48", "inject p0 80000001cc01", "inject p0 80000002cc02", "recvnb c0", "recvnb c1",
+     "sendnb c0 - dd01", "sendnb c1 - dd02", "sent p0", "sendnb c1 - dd02"],
+    ["open s0 rep0", "ctx c0 s0", "ctx c1 s0", "conn s0 48", "inject p0 80000001cc01", "inject p0 80000002cc02", "inject p0 80000003cc03", "recvnb c1",
+     "send c1 a9 - dd00", "recvnb c0", "send c0 a0 - dd01", "recvnb c0", "send c0 a1 - dd02", "sent p0", "sent p0", "send c0 a2 - dd02", "sent p0", "sent p0"],
+]
+# which known finding a crash of a FIXED_CASE means on a tree that does not have the repair
+FIXED_KEYS = {0: ("REQ_CLONE", "req-clone-policy"), 1: ("REQ_CLONE", "req-clone-policy"), 2: ("REQ_CLONE", "req-clone-policy"),
+              3: ("REQ_CANCEL_SEND", "req-cancel-send-assert")}
+
+
+def gen_case(rng, i, flags):
+    full = flags.get("REQ_CLONE") and flags.get("REQ_CANCEL_SEND")
+    w = i % 10
+    if w < 4:
+        return gen_req_case(rng, allow_opt_change=bool(full), allow_cancel_send=bool(full))
+    if w < 7:
+        return gen_rep_case(rng)
+    if w < 8:
+        return gen_xreq_case(rng)
+    return gen_xrep_case(rng)
+
+
+def run(tier, seed, replay=None):
+    rep = Report("C04", tier, seed)
+    if os.environ.get("C04_ASSUME_KNOWN"):          # local override while findings are neither repaired nor listed
+        for key, text in KNOWN_TEXT.items():
+            rep.known.setdefault(key, text)
+    proof_ok, cb, bdir, why = std_prelude(rep, "C04", "Properties_C04", "c04", drivers=("c04",))
+    if bdir is None:
+        return rep.finish()
+    flags = fixed_flags()
+    rng = random.Random(seed)
+    n = 260 if tier == "quick" else 6000
+    STATS.clear()
+    if replay:
+        cases = [[l.strip() for l in open(replay) if l.strip() and not l.startswith("#")]]
+    else:
+        # the reproducers of unrepaired crashes would kill the batch: run them apart
+        fixed = []
+        impl, err = wb_build(bdir, "wb_proto.c")
+        for i, c in enumerate(FIXED_CASES):
+            fk = FIXED_KEYS.get(i)
+            if fk and not flags.get(fk[0], False):
+                if impl is not None:
+                    o, crash = run_cases(impl, [c], timeout=60)
+                    if crash is not None:
+                        p = rep.replay_file("known_%s_%d.case" % (fk[1], i), "# %s\n" % KNOWN_TEXT[fk[1]] + "\n".join(c) + "\n")
+                        rep.violation(p, "REQ: " + KNOWN_TEXT[fk[1]] + " (%s)" % san_summary(crash[2]), key=fk[1])
+                continue
+            fixed.append(c)
+        cases = load_corpus("C04") + fixed + [gen_case(rng, i, flags) for i in range(n)]
+    proto_run(rep, "C04", tier, bdir, cases, oracle, model_driver="c04", label="REQ/REP")
+    if not proof_ok and not rep.violations:
+        proof_broken_report(rep, cb, "C04 theorems do not check (%s)" % why)
+    rep.cov["source_repairs_detected"] = flags
+    rep.cov["spec_clauses_exercised"] = dict(sorted(STATS.items()))
+    rep.cov["rule"] = ("random histories over the deterministic transport, same script on the real library and on the extracted models: "
+                       "REQ (4/10): socket context + 0-3 contexts, <= 3 pipes (right and wrong peer), resend time infinite / 5 s / 60 s per context, blocking and "
+                       "non-blocking sends and receives, cancels, raw repliers injecting current / stale / other contexts' / unknown ids, ids without the high bit, "
+                       "ids not yet on the wire, ids behind a backtrace word, duplicates, truncated replies, transport completions one at a time, connection loss; "
+                       "on a repaired tree also resend-time changes and send cancels at any point; "
+                       "REP (3/10): TTL 1..15 (and invalid), backtraces of 0-20 words with / without / with a truncated id, 0-3 contexts, replies blocking and non-blocking, "
+                       "busy pipes, cancels, pipe loss; raw REQ (1/10) and raw REP (2/10): headers of 0-3 words, unknown / short pipe ids, queue depths 0-4, resizes.  "
+                       "Oracle = the property's clauses evaluated on the implementation's observations (ids and pipes as tokens); non-trivial = some message moves")
+    return rep.finish()
